@@ -25,7 +25,7 @@ pub fn gen_coll(
 ) -> Constrained {
     match &ast.node {
         Node::Set { elements } | Node::List { elements } => {
-            gen_vec(elements, env, false, ctx, constr)?;
+            gen_vec(elements, &env.is_expr(true), false, ctx, constr)?;
             gen_col(ast, env, constr)?;
             Ok(env.clone())
         }
@@ -34,7 +34,7 @@ pub fn gen_coll(
                 .iter()
                 .flat_map(|(from, to)| [from.clone(), to.clone()])
                 .collect();
-            gen_vec(&elements, env, false, ctx, constr)?;
+            gen_vec(&elements, &env.is_expr(true), false, ctx, constr)?;
 
             gen_col(ast, env, constr)?;
             Ok(env.clone())
